@@ -267,6 +267,7 @@ func run(c *rig.Ctx) {
 	})
 
 	longHalt(c)
+	idleLengths(c)
 
 	roms := romrun.Select("halt_bug", "halt_ime0", "halt_ime1", "02-interrupts")
 	romrun.FollowROMs(c, "roms", roms, romrun.FollowOpts{Props: []string{"C05"}, Verdict: true})
